@@ -443,6 +443,25 @@ fn interleaved_pages(rng: &mut Rng, rep: &mut Report) {
                 }
             }
         }
+        // ... and THE SAME COORDINATE on one page after the other (pages of different heights have different column strides:
+        // whatever one access worked out must not serve the next page): every pixel of the smallest common area, written
+        // on page 0, page 1, page 2 in turn and read back in the other order
+        let (cw, ch) = (dims.iter().map(|d| d.0).min().unwrap_or(0).min(20), dims.iter().map(|d| d.1).min().unwrap_or(0));
+        for x in 0..cw {
+            for y in 0..ch {
+                let v = (x + y) % 3 != 0;
+                for k in 0..3 {
+                    mons[k].apply(&Op::Set(x, y, v), rep);
+                }
+                for k in [2usize, 0, 1] {
+                    mons[k].apply(&Op::Get(x, y), rep);
+                }
+                rep.count("same_coordinate_on_one_page_after_another");
+            }
+        }
+        for m in mons.iter_mut() {
+            m.compare(rep, false);
+        }
         rep.count("interleaved_page_groups");
     }
 }
@@ -646,6 +665,7 @@ pub fn run(ctx: &Ctx) -> Outcome {
         floor("every page asked for could be built (otherwise the bounds rules were not observed on those sizes)", report.get("pages_that_could_not_be_built") == 0, report.get("pages_that_could_not_be_built")),
         floor("pages whose dot count passes 2^32 (65537x65536, 65536x65537, (2^28+1)x16, ...), owned and borrowed, probed at the corners, past the 2^32-dot mark and at random", report.get("gigantic_pages_probed") == 12, report.get("gigantic_pages_probed")),
         floor("out-of-bounds accesses made from a destructor while another panic unwinds (every size of the box)", report.get("oob_accesses_made_while_a_panic_unwinds") > 10_000 && report.get("oob_while_unwinding_not_reached") == 0, report.get("oob_accesses_made_while_a_panic_unwinds")),
+        floor("the same coordinate written and read on pages of different strides one after the other", report.get("same_coordinate_on_one_page_after_another") > 500, report.get("same_coordinate_on_one_page_after_another")),
         floor("every size of the box explored", report.get("box_sizes_done") == box_n as u64, report.get("box_sizes_done")),
         floor("tall and wide pages explored pixel by pixel", report.get("tall_and_wide_sizes_done") == n_tall as u64, report.get("tall_and_wide_sizes_done")),
         floor("all 11 real sizes explored", report.get("real_sizes_done") == 11, report.get("real_sizes_done")),
